@@ -527,7 +527,7 @@ func extraC14Wave2(c *Ctx, r *Report) {
 				return
 			}
 			envs := map[string]bool{}
-			for _, cf := range condFacts(in.Block()) {
+			for _, cf := range normFacts(condFacts(in.Block())) {
 				collectGetenv(cf.Cond, 6, envs)
 			}
 			okEnv := false
@@ -1040,7 +1040,7 @@ func extraC17Wave2(c *Ctx, r *Report) {
 			}
 			key := fname(f) + ":MaxBytesReader"
 			bad := false
-			for _, cf := range condFacts(in.Block()) {
+			for _, cf := range normFacts(condFacts(in.Block())) {
 				if mentionsFieldExpr(cf.Cond, "net/http", "Request", "ContentLength", 4) {
 					bad = true
 				}
